@@ -1,7 +1,7 @@
 """C07 range and length queries agree with full extraction: archive generator (lib/gen_samples.py, small k and
 segment sizes so that contigs have many segments), hand-over of the real decoded segments and the query list to the
 model driver (model_cases), oracle (every answer is the slice of get_contig, computed here), CLI cross-check."""
-import json, os, random, re, subprocess, sys
+import bisect, json, os, random, re, subprocess, sys
 
 sys.path.insert(0, os.path.join(os.path.dirname(os.path.dirname(os.path.abspath(__file__))), "lib"))
 import gen_samples as gs  # noqa
@@ -34,7 +34,9 @@ PROFILES_QUICK = ["dev"]
 
 VERIF = os.path.dirname(os.path.dirname(os.path.abspath(__file__)))
 CASEROOT = os.path.join(VERIF, ".cache", "c07", "cases")
+BUDGET = 200000          # exhaustive (start,end) pairs per archive (bounds the size of a result line)
 M32 = 0xffffffff
+M64 = (1 << 64) - 1
 B1, I1, B2, I2 = 16777619, 0x811c9dc5, 31, 7
 LETTERS = "ACGTNRYSWKMBDHVU"
 
@@ -104,12 +106,14 @@ def _case(rng, exh, kind="gen", mode=None, ns=None, nc=None, clen=None):
     gseed = rng.getrandbits(40)
     recipe = f"{gseed:x}:{kind}:{mode}:{ns}:{nc}:{clen}:{k}"
     d = os.path.join(CASEROOT, recipe.replace(":", "_"))
-    line = f"q {d} {k},{seg},{m},50,{threads},{1 << 31},{ff} {exh} {recipe}"
+    line = f"q {d} {k},{seg},{m},50,{threads},{1 << 31},{ff} {exh}:{BUDGET} {recipe}"
     ensure_case(line)
     return line
 
 
 def gen_cases(rng, tier):
+    """every archive costs 5..15 s to create (zstd level 19 contexts in store_contig_batch), whatever its size: few
+    archives with many samples / contigs each"""
     exh = 60 if tier == "quick" else 300
     cs = []
     for kind in ("tiny", "rc", "lowcomplexity"):
@@ -119,11 +123,11 @@ def gen_cases(rng, tier):
         # a few archives with all pairs up to 200 bases (few small contigs, several segments each)
         for _ in range(3):
             cs.append(_case(rng, 200, ns=2, nc=rng.choice([1, 2]), clen=rng.choice([100, 130])))
-        n = 34
+        n = 15
     else:
-        n = 400
+        n = 200
     for _ in range(n):
-        cs.append(_case(rng, exh))
+        cs.append(_case(rng, exh, ns=rng.choice([1, 2, 3, 4, 5, 6]), nc=rng.choice([2, 3, 5, 6])))
     return cs
 
 
@@ -229,13 +233,19 @@ class _Pref:
 
 
 _SEEN = []          # (case, parsed impl) of the first archives, for the CLI cross-check
+_STATS = {"archives_queried": 0, "archives_not_created": 0, "contigs": 0, "range_queries": 0, "contigs_ge3_segments": 0,
+          "max_segments": 0, "revcomp_segments": 0, "kmer_only_later_segments": 0, "first_segment_is_kmer_only": 0,
+          "contigs_shorter_than_k": 0, "contigs_all_pairs": 0, "queries_end_gt_len": 0, "queries_usize_max": 0,
+          "queries_spanning_ge2_junctions": 0}
 
 
 def oracle(case, impl):
     if impl.startswith(("CREATE-ERR", "CREATE-PANIC")):
+        _STATS["archives_not_created"] += 1
         return None
     if not impl.startswith("OK "):
         return "the archive could not be read back: " + impl[:200]
+    _STATS["archives_queried"] += 1
     try:
         k, recs = parse_impl(impl)
     except Exception as ex:
@@ -261,11 +271,32 @@ def oracle(case, impl):
         if any(x < k for x in lens[1:]):
             return "wf fails on a real archive: a later segment of %s has fewer than k=%d bases: %r" % (who, k, lens)
         pf = _Pref(full)
+        st = _STATS
+        st["contigs"] += 1
+        st["contigs_ge3_segments"] += len(raws) >= 3
+        st["max_segments"] = max(st["max_segments"], len(raws))
+        st["revcomp_segments"] += r["rcs"].count("1")
+        st["kmer_only_later_segments"] += sum(1 for x in lens[1:] if x == k)
+        st["first_segment_is_kmer_only"] += len(lens) > 1 and lens[0] == k
+        st["contigs_shorter_than_k"] += n < k
         if r["answers"] == "-":
             continue
-        for a in r["answers"].split(","):
+        junc, pos = [], 0
+        for i_, x in enumerate(lens[:-1]):
+            pos += x if i_ == 0 else x - k
+            junc.append(pos)
+        answers = r["answers"].split(",")
+        st["range_queries"] += len(answers)
+        st["contigs_all_pairs"] += len(answers) >= (n + 3) * (n + 3)
+        for a in answers:
             s, e, v = a.split(":")
             s, e = int(s, 16), int(e, 16)
+            if e > n:
+                st["queries_end_gt_len"] += 1
+                if e >= M64 or s >= M64:
+                    st["queries_usize_max"] += 1
+            if s < e and bisect.bisect_left(junc, min(e, n)) - bisect.bisect_right(junc, s) >= 2:
+                st["queries_spanning_ge2_junctions"] += 1
             if v in ("E", "P"):
                 return "get_contig_range(%s, %d, %d) %s" % (who, s, e, "returns an error" if v == "E" else "panics")
             f = v.split(".")
@@ -326,7 +357,9 @@ _CLI_RUNS = 0
 
 
 def extra_coverage(ctx):
-    return {"cli_runs": _CLI_RUNS}
+    d = dict(_STATS)
+    d["cli_runs"] = _CLI_RUNS
+    return {"c07_run_statistics (summed over profiles)": d}
 
 
 def search(ctx, budget):
